@@ -18,8 +18,8 @@ BOUNDS = {
         "ecl_subs": (4, 1, "canon", 2), "timelines": (4, 1, "canon", 2), "std": (3, 1, "canon", 2),
     },
     "thorough": {
-        "anm_sprites": (4, 3, "canon", 2), "anm_scripts": (4, 3, "canon", 4), "msg": (4, 1, "canon", 2),
-        "ecl_subs": (4, 1, "all", 2), "timelines": (4, 1, "canon", 2), "std": (4, 1, "canon", 2),
+        "anm_sprites": (3, 3, "all", 2), "anm_scripts": (4, 3, "canon", 3), "msg": (4, 1, "canon", 2),
+        "ecl_subs": (4, 1, "all", 2), "timelines": (5, 1, "canon", 2), "std": (4, 1, "canon", 2),
     },
 }
 # games each family is compiled for: family -> tier -> [(game, stride)]; stride k: every k-th layout only
@@ -156,10 +156,11 @@ def render_msg(case, game):
         s += "        default: %s,\n" % ent(lay["default"])
     s += "    },\n}\n"
     markers = {}
+    mop = 4 if game in ("06", "07", "08", "09") else 10      # an instruction with one S argument
     for i, nm in enumerate(lay["scripts"]):
         markers.setdefault(nm, 1000 + i)
-        s += "script %s {\n    ins_4(%d);\n+10:\n    ins_4(%d);\n}\n" % (nm, 1000 + i, 2000 + i)
-    return s, dict(markers=markers)
+        s += "script %s {\n    ins_%d(%d);\n+10:\n    ins_%d(%d);\n}\n" % (nm, mop, 1000 + i, mop, 2000 + i)
+    return s, dict(markers=markers, marker_op=mop)
 
 
 ECL_FORMS = {
@@ -366,7 +367,7 @@ def observe_msg(case, game, aux, data):
         if e["offset"] == 0:
             raise Mismatch("table-slot", "slot %d names %s but holds offset 0" % (slot["v"], nm))
         instrs = msg["scripts"].get(e["offset"])
-        if not instrs or instrs[0]["opcode"] != 4 or len(instrs[0]["args"]) < 4:
+        if not instrs or instrs[0]["opcode"] != aux["marker_op"] or len(instrs[0]["args"]) < 4:
             raise Mismatch("table-slot", "slot %d (%s): no script starts at offset %#x" % (slot["v"], nm, e["offset"]))
         marker = bl.dwords(instrs[0]["args"])[0]
         if marker != aux["markers"][nm]:
